@@ -4,7 +4,7 @@
 usage: stubsolver.py <query.smt2>     (script path in env STUB_SCRIPT)
 The script is a JSON object {marker_hex: {"reply": kind, "delay": seconds}}.  The query belongs to
 the marker that occurs *positively* in one of its assertions (not under `not`/`distinct`).
-Reply kinds: sat | sat_abstract | unsat | unsat_err | unknown | hang | empty | garbage | exit3 | sigkill
+Reply kinds: sat | sat_abstract | unsat | unsat_emptycore | unsat_err | unknown | hang | empty | garbage | exit3 | sigkill
 """
 import json
 import os
@@ -62,6 +62,9 @@ def main():
     elif kind == "unsat":
         core = " ".join(f"<{i}>" for i in re.findall(r":named <(\d+)>", text))
         sys.stdout.write("unsat\n" + (f"({core})\n" if "produce-unsat-cores" in text else ""))
+    elif kind == "unsat_emptycore":
+        # a solver may answer (get-unsat-core) with an empty list
+        sys.stdout.write("unsat\n()\n")
     elif kind == "unsat_err":
         sys.stdout.write('unsat\n(error "line 7 column 10: model is not available")\n')
         sys.stdout.flush()
